@@ -139,6 +139,10 @@ class SsbGraphMinimizer:
                 iv = old_in_edge.source
                 # Create a new edge between the target label and the old entry point
                 g.add_edge(iv, ov, **attr)
+                # A call is written with the name of its label: it has to name the label that remains.
+                iv_op = g.vs[iv]["op"]
+                if isinstance(iv_op, SsbLabelJump) and iv_op.label is label["op"]:
+                    iv_op.label = ov["op"]
             g.delete_edges(ins)
             return [jump.index, label.index]
         return []
